@@ -24,9 +24,11 @@ RULE = ('case = one generated filter over 1-4 stored documents that are variants
         'wire encoding of (filter, documents)')
 
 ASSUMPTIONS = [
-    'outside F (model answers "unmodelled"): $expr, $regex beyond literal patterns with ^/$ '
+    'outside F (model answers "unmodelled"): $regex beyond literal patterns with ^/$ '
     'anchors, $options, compiled regex values, negative array indexes, '
     'uuid/bytes/Decimal128/DBRef values',
+    '$expr is evaluated by the model (MongoModel.Expr.exprFilter) but the C01 oracle has no rule '
+    'for it and the C01 generator does not draw it: nothing is claimed about it here (C04)',
     'error classes are not compared for C01 (only raised / not raised)',
 ]
 
